@@ -437,7 +437,8 @@ def part_gate(ctx):
     ctx.explanation += ("R-GATE: a cell reaches the output only through the containment test of its own geometry: polygonToCells stores a cell only after "
                         "pointInsidePolygon succeeded on the centre of that very cell (polygon = the parameter, boxes filled from it, slot not already holding it); "
                         "iterStepPolygonCompact, explored with the containment mode fixed, emits a cell in mode CENTER only through the centre test of that cell or the "
-                        "inside test of the box covering its descendants, in mode FULL only through the boundary-inside test or the latter. ")
+                        "inside test of the box covering its descendants, in mode FULL only through the boundary-inside test or the latter; in the two overlapping modes every path to an "
+                        "emitting store passes the success edge of one of the tests that mode admits (disjunctive gating: the graph without those edges does not reach the store). ")
     ctx.floor("R-GATE", "emitting sites / modes", n, 3)
 
 
